@@ -46,3 +46,45 @@ impl StatusState {
             final(self).abs() == step(old(self).abs(), operation_success),  // @C20.update_state.refines_step
             r@ == final(self).current_state@,  // @C20.update_state.returns_state
 """, pre_body="broadcast use axiom_str_ext;\nproof { lits(); }")
+
+    ss = u.src("proxy_agent_extension/src/service_main/service_state.rs")
+    sm = u.src("proxy_agent_extension/src/service_main.rs")
+    u.raw_file("deps.rs")
+    u.raw(open(os.path.join(COMMON, "hash_str.rs")).read())
+    u.raw(open(os.path.join(COMMON, "std_string.rs")).read())
+    u.features.append("allocator_api")
+    u.features.append("sized_hierarchy")
+    with u.mod("service_state", uses="use std::collections::HashMap;\nuse vstd::std_specs::hash::*;"):
+        u.take(ss, "ServiceState", "struct")
+        with u.impl_(ss, "ServiceState"):
+            u.take_fn(ss, "ServiceState::update_service_state_entry", contract="""
+    requires obeys_key_model::<String>(),
+    ensures
+        r == emit_spec(old(self).state_map@, str_key(state_key@), state_value@, max_count),  // @C20.update_service_state_entry.emit_iff_changed_or_max
+        final(self).state_map@.contains_key(str_key(state_key@)),  // @C20.update_service_state_entry.key_present
+        final(self).state_map@[str_key(state_key@)].0@ == state_value@,   // @C20.update_service_state_entry.value_stored
+        final(self).state_map@[str_key(state_key@)].1 == next_count(old(self).state_map@, str_key(state_key@), state_value@, max_count),  // @C20.update_service_state_entry.count
+        forall|o: String| o != str_key(state_key@) ==> (#[trigger] final(self).state_map@.contains_key(o) == old(self).state_map@.contains_key(o)
+                   && (old(self).state_map@.contains_key(o) ==> final(self).state_map@[o] == old(self).state_map@[o])),  // @C20.update_service_state_entry.frame
+""", pre_body="broadcast use vstd::std_specs::hash::group_hash_axioms;\nbroadcast use axiom_string_ext;\nbroadcast use group_str_key;\nbroadcast use axiom_to_string_string;")
+
+    # call site: write_state_event passes MAX_STATE_COUNT (= 120) and emits exactly when the entry says so
+    el = u.src("proxy_agent_shared/src/telemetry/event_logger.rs")
+    u.raw("""
+#[verifier::external_type_specification]
+pub struct ExLogLevel(log::Level);
+pub tracked struct EvTrace { pub ghost n: int }
+""")
+    with u.mod("event_logger", uses="use log::Level;"):
+        u.take_fn(el, "write_event", external_body=True, ghost="Tracked(tr): Tracked<&mut EvTrace>", contract="""
+    ensures final(tr).n == old(tr).n + 1,
+""")
+    with u.mod("service_main", uses="use crate::service_state::ServiceState;\nuse crate::event_logger;\nuse log::Level as LoggerLevel;\nuse vstd::std_specs::hash::*;"):
+        u.take(sm, "MAX_STATE_COUNT", "const")
+        u.take_fn(sm, "write_state_event", ghost="Tracked(tr): Tracked<&mut EvTrace>", ghost_calls=[("event_logger::write_event", None, "Tracked(tr)")], contract="""
+    requires obeys_key_model::<String>(),
+    ensures
+        final(tr).n == old(tr).n + (if emit_spec(old(service_state).state_map@, str_key(state_key@), state_value@, 120) { 1int } else { 0int }),  // @C20.write_state_event.emits_iff_changed_or_120
+        final(service_state).state_map@.contains_key(str_key(state_key@)),
+        final(service_state).state_map@[str_key(state_key@)].1 == next_count(old(service_state).state_map@, str_key(state_key@), state_value@, 120),  // @C20.write_state_event.max_is_120
+""")
